@@ -150,7 +150,7 @@ Conforms ==
     /\ img = NoImg => \A x \in FaultImages :
                          LET r == Read(x) IN ReopenAllowed(SpAtCrash, CrashDesc(x), r.outcome, r.content, r.extent)
 
-Shape == [run |-> 0, k |-> 1, f |-> "f", has_new |-> TRUE, intact |-> TRUE, trunc |-> TRUE, dense |-> TRUE, inplace |-> TRUE,
+Shape == [run |-> 0, k |-> 1, f |-> "f", has_new |-> TRUE, intact |-> TRUE, trunc |-> TRUE, dense |-> TRUE, inplace |-> TRUE, resume |-> FALSE,
           old_len |-> disk.len, new_len |-> cache.len, nch |-> Cardinality(ChangedSet(disk, cache)),
           hdr_changed |-> 0 \in ChangedSet(disk, cache), bounds |-> {HB}]
 
